@@ -9,7 +9,7 @@ RULE = ("trees are enumerated by TLC as sequences of public operations (MC_Eleme
 
 
 def run(tier, rep):
-    pools = ["case", "separators", "concat", "shadow", "keywords", "prefixed", "nonascii", "depth", "underscore", "fields", "fields2", "xmlnsish", "attrcase"]
+    pools = ["case", "separators", "concat", "shadow", "keywords", "prefixed", "nonascii", "depth", "underscore", "fields", "fields2", "xmlnsish", "attrcase", "suffixlit"]
     rc.render_pools(rep, "C04", tier, pools, rc.C04_TAGS, limit=400 if tier == "quick" else 15000)
     rc.random_trees(rep, "C04", tier, rc.C04_TAGS)
     rep.add(distinct_nontrivial=rep.coverage.get("trees_rendered", 0), rule=RULE, exhaustive=False,
